@@ -246,6 +246,16 @@ def realign_locals(path, qualname, fn):
     for tag, i1, i2, j1, j2 in difflib.SequenceMatcher(None, old, new, autojunk=False).get_opcodes():
         if tag == 'replace' and i2 - i1 == j2 - j1:
             pairs += list(zip(old[i1:i2], new[j1:j2]))
+        elif tag == 'replace':
+            # blocks of different length (locals were also added or removed): pair, in order, names that resemble each other
+            j = j1
+            for o in old[i1:i2]:
+                for jj in range(j, j2):
+                    nw = new[jj]
+                    if o in nw or nw in o or difflib.SequenceMatcher(None, o, nw).ratio() >= 0.6:
+                        pairs.append((o, nw))
+                        j = jj + 1
+                        break
     if not pairs:
         return {}
     every = set()            # every identifier that occurs anywhere in the current function (any scope)
